@@ -100,6 +100,9 @@ def functions_encoded(specs):
 def run_property(hmod, tier, seed, only=None):
     t0 = time.time()
     pid = hmod.ID
+    from . import core as _core
+    if "VERIF_CROSSCHECK" not in os.environ:
+        _core.CROSSCHECK_EVERY = 400 if tier == "quick" else 100       # inherited by the forked workers
     known = load_known(pid)
     active = frozenset(e["id"] for e in known)
     obs = hmod.obligations(tier)
@@ -187,6 +190,10 @@ def run_property(hmod, tier, seed, only=None):
         "queries": total.queries,
         "requires_checked": total.requires,
         "solver_time_s": round(total.solver_time, 3),
+        "second_solver": {"solver": "cvc5 (python wheel)", "every_nth_query_per_worker": _core.CROSSCHECK_EVERY,
+                          "queries_rechecked": total.crosschecked, "agreed": total.crosscheck_agreed,
+                          "cvc5_unknown_or_timeout": total.crosschecked - total.crosscheck_agreed,
+                          "note": "a sat/unsat disagreement makes the run inconclusive (exit 3)"},
         "aborted_paths": total.aborted,
         "obligations": len(per_ob),
         "discharged": sum(1 for r in per_ob if r["status"] == "ok"),
